@@ -101,11 +101,19 @@ def matcher_desc(m):
     }
 
 
+def asked_for(matcher):
+    """(metric name, threshold, many-to-one) as the caller configured them (recorded by pan.make_matcher); for a matcher
+    built elsewhere (the repository's own tests) what the object says about itself"""
+    c = getattr(matcher, "_vf_cfg", None)
+    if c is not None:
+        S.ctx.count("monitor.matcher_settings_taken_from_the_call")
+        return c["metric"], float(c["thr"]), bool(c["m2o"])
+    return metric_name(_need(matcher, "_matching_metric")), float(_need(matcher, "_matching_threshold")), bool(getattr(matcher, "_allow_many_to_one", False))
+
+
 def check_naive_matching(matcher, pred, refa, M):
     ctx = S.ctx
-    metric = metric_name(_need(matcher, "_matching_metric"))
-    thr = float(_need(matcher, "_matching_threshold"))
-    m2o = bool(_need(matcher, "_allow_many_to_one"))
+    metric, thr, m2o = asked_for(matcher)
     ndim = refa.ndim
     pi, ri = ref.instances_of(ref.vox(pred)), ref.instances_of(ref.vox(refa))
     table = ref.score_table(metric, ri, pi, ndim)
@@ -144,8 +152,7 @@ def check_merge_matching(matcher, pred, refa, order):
     reference SOME order of its predictions is such a process (the insertion order of the label map is tried
     first; an implementation is free to build its label map in any order)."""
     ctx = S.ctx
-    metric = metric_name(_need(matcher, "_matching_metric"))
-    thr = float(_need(matcher, "_matching_threshold"))
+    metric, thr, _ = asked_for(matcher)
     ndim = refa.ndim
     pi, ri = ref.instances_of(ref.vox(pred)), ref.instances_of(ref.vox(refa))
     table = ref.score_table(metric, ri, pi, ndim)
